@@ -62,6 +62,56 @@ def unders_of(fm, fr):
     return kids
 
 
+
+# ---------------------------------------------------------------------------
+# marker needs ('is updated' / 'is changed'): mark ids and the enact markers the resolver inserts
+# ---------------------------------------------------------------------------
+def marker_needs(n):
+    """marker needs inside a need (through 'not')"""
+    if n[0] in ("updated", "changed"):
+        return [n]
+    if n[0] == "not":
+        return marker_needs(n[1])
+    return []
+
+
+class Marks(object):
+    """mirror of needing.NeedMarker._resolve: one Mark per (share, 'framer<marker-or-frame'); a marker need with
+    an `in frame` clause inserts an enact marker FIRST in that frame unless an equal one is already there.
+    Resolution order: framers in script order, frames in script order, beacts, enacts, reacts, preacts."""
+
+    def __init__(self, prog):
+        self.ids = {}
+        self.enact = {}       # (framer, frame) -> list of inserted marker acts, final order (first = last inserted)
+        for fm in prog["framers"]:
+            for fr in fm["frames"]:
+                for pa in fr.get("preacts", []):
+                    if pa[0] in ("go", "aux"):
+                        for nd in pa[1]:
+                            for m in marker_needs(nd):
+                                self.resolve(fm, fr, m)
+
+    def key(self, fm, fr, m):
+        kind, v, infr, by = m[0], m[1], m[2], m[3]
+        frame = fr["name"] if (not infr or infr == "me") else infr
+        return (v, fm["name"] + "<" + (by if by else frame))
+
+    def mid(self, fm, fr, m):
+        k = self.key(fm, fr, m)
+        if k not in self.ids:
+            self.ids[k] = len(self.ids)
+        return self.ids[k]
+
+    def resolve(self, fm, fr, m):
+        i = self.mid(fm, fr, m)
+        infr = m[2]
+        if infr:
+            frame = fr["name"] if infr == "me" else infr
+            lst = self.enact.setdefault((fm["name"], frame), [])
+            act = ["marku", i] if m[0] == "updated" else ["markc", m[1], i]
+            if act not in lst:
+                lst.insert(0, act)
+
 # ---------------------------------------------------------------------------
 # FloScript rendering
 # ---------------------------------------------------------------------------
@@ -85,6 +135,13 @@ def flo_need(n):
         return "aux %s in frame %s is done" % (n[1], n[2])
     if k == "status":
         return "%s is %s" % (n[1], n[2])
+    if k in ("updated", "changed"):
+        t = ".v%d is %s" % (n[1], k)
+        if n[2]:
+            t += " in frame %s" % n[2]
+        if n[3]:
+            t += " by %s" % n[3]
+        return t
     if k == "not":
         return "not " + flo_need(n[1])
     raise ValueError(n)
@@ -193,8 +250,10 @@ def cz(n):
     return "(%d)%%Z" % n
 
 
-def coq_need(ix, fm, n):
+def coq_need(ix, fm, n, fr=None, marks=None):
     k = n[0]
+    if k in ("updated", "changed"):
+        return "(%s %s %s)" % ("NUpdated" if k == "updated" else "NChanged", cn(n[1]), cn(marks.mid(fm, fr, n)))
     if k == "always":
         return "NAlways"
     if k == "var":
@@ -211,7 +270,7 @@ def coq_need(ix, fm, n):
     if k == "status":
         return "(NStatus %s %s)" % (cn(ix.tid[n[1]]), STATS[n[2]])
     if k == "not":
-        return "(NNot %s)" % coq_need(ix, fm, n[1])
+        return "(NNot %s)" % coq_need(ix, fm, n[1], fr, marks)
     raise ValueError(n)
 
 
@@ -256,6 +315,7 @@ def coq_act(ix, prog, fm, a):
 
 def render_coq(prog, name="P"):
     ix = Index(prog)
+    marks = Marks(prog)
     fms = []
     for fm in prog["framers"]:
         me = fm["name"]
@@ -266,16 +326,21 @@ def render_coq(prog, name="P"):
                 if pa[0] == "act":
                     pre.append("(PAct %s)" % coq_act(ix, prog, fm, pa[1]))
                 elif pa[0] == "go":
-                    pre.append("(PGo %s %s)" % (clist([coq_need(ix, fm, n) for n in pa[1]], "(need FOps)"),
+                    pre.append("(PGo %s %s)" % (clist([coq_need(ix, fm, n, fr, marks) for n in pa[1]], "(need FOps)"),
                                                 cn(ix.fid[(me, pa[2])])))
                 elif pa[0] == "aux":
-                    pre.append("(PAux %s %s)" % (clist([coq_need(ix, fm, n) for n in pa[1]], "(need FOps)"),
+                    pre.append("(PAux %s %s)" % (clist([coq_need(ix, fm, n, fr, marks) for n in pa[1]], "(need FOps)"),
                                                  cn(ix.tid[pa[2]])))
                     deact.append("(ADeactivize %s)" % cn(ix.tid[pa[2]]))
             exacts = [coq_act(ix, prog, fm, a) for a in fr.get("exacts", [])] + deact
 
             def acts(key):
-                return clist([coq_act(ix, prog, fm, a) for a in fr.get(key, [])], "(act FOps)")
+                pre_m = []
+                if key == "enacts":     # enact markers inserted first by the resolver
+                    for m in marks.enact.get((me, fr["name"]), []):
+                        pre_m.append("(AMarkU %s false)" % cn(m[1]) if m[0] == "marku"
+                                     else "(AMarkC %s %s)" % (cn(m[1]), cn(m[2])))
+                return clist(pre_m + [coq_act(ix, prog, fm, a) for a in fr.get(key, [])], "(act FOps)")
             frs.append(
                 "(@Build_frame FOps %s %s %s %s %s %s %s %s %s %s)" % (
                     "None" if not fr.get("over") else "(Some %s)" % cn(ix.fid[(me, fr["over"])]),
@@ -508,6 +573,15 @@ class Gen(object):
     def needs(self, prog, fm, lo=0, hi=2):
         return [self.need(prog, fm) for _ in range(self.rng.randint(lo, hi))]
 
+    def marker_need(self, prog, fm, fr):
+        """'.vN is updated|changed [in frame me|name] [by mk]' -- only in transition / conditional-aux clauses"""
+        r = self.rng
+        kind = r.choice(["updated", "updated", "changed"])
+        infr = r.choice([None, None, "me", r.choice(fm["frames"])["name"]])
+        by = r.choice([None, None, "mka", "mkb"])
+        n = [kind, r.randrange(prog["nvars"]), infr, by]
+        return ["not", n] if r.random() < 0.15 else n
+
     def simple_act(self, prog, fm):
         r = self.rng
         k = r.choice(["put", "inc", "inc", "copy", "rec"])
@@ -650,6 +724,8 @@ class Gen(object):
                     if x < 0.6:
                         far = r.choice(fm["frames"])["name"]
                         ns = self.needs(prog, fm, 0 if r.random() < 0.15 else 1, 2)
+                        if self.f("marker") and r.random() < 0.3:
+                            ns.insert(r.randint(0, len(ns)), self.marker_need(prog, fm, fr))
                         fr["preacts"].append(["go", ns, far])
                     elif x < 0.75 and self.f("condaux") and cand:
                         # (the same framer as plain AND conditional aux of one frame is excluded: see
@@ -852,4 +928,16 @@ def scenarios(tick=0.125):
             _fr("f1", auxes=["a1"])]},
         {"name": "a1", "sched": "aux", "order": "mid", "period": 0.0, "first": "x", "frames": [
             _fr("x", beacts=[["var", 0, ">=", 1]])]}]})))
+    # S13: a transition guarded by 'is updated' / 'is changed' whose TARGET is refused for a few ticks: a refused
+    # attempt must not re-arm the mark (the pending update is still pending when the guard opens)
+    for kind in ("updated", "changed"):
+        out.append(("marked-transition-refused-%s" % kind, _tagged({"tick": tick, "nvars": 2, "framers": [
+            {"name": "m0", "sched": "active", "order": "front", "period": 0.0, "first": "w0", "frames": [
+                _fr("w0", preacts=[["go", [["recurred", ">=", 1]], "w1"]]),
+                _fr("w1", enacts=[["put", 0, 5]], preacts=[["go", [["recurred", ">=", 3]], "w2"]]),
+                _fr("w2", enacts=[["put", 1, 1]], preacts=[["go", [["recurred", ">=", 3]], "w3"]]),
+                _fr("w3", enacts=[["rec", 909], ["bid", "stop", ["all"], None]])]},
+            {"name": "m1", "sched": "active", "order": "back", "period": 0.0, "first": "f0", "frames": [
+                _fr("f0", preacts=[["go", [[kind, 0, "me", None]], "f1"]]),
+                _fr("f1", beacts=[["var", 1, ">=", 1]])]}]})))
     return out
